@@ -3,6 +3,7 @@
   laws of `structEq` and `lexCompare`.
 -/
 import RsjModel.Compare
+set_option linter.unusedSectionVars false
 namespace Rsj.Compare
 
 class LawfulNumOrd (ν : Type) [DecidableEq ν] [NumOrd ν] : Prop where
